@@ -338,6 +338,9 @@ class FeedChecker(ProgMixin):
         self.piece_length = checker.piece_length
         self.paths = checker.paths
         self.pieces = checker.info["pieces"]
+        if isinstance(self.pieces, str):
+            # a hash string that happens to be valid utf-8 is decoded as text
+            self.pieces = self.pieces.encode("utf-8")
         self.fileinfo = checker.fileinfo
         self.piece_map = {}
         self.index = 0
@@ -587,6 +590,9 @@ class HashChecker(ProgMixin):
                 self.pieces = self.piece_layers[self.root_hash]
             else:
                 self.pieces = self.root_hash
+            if isinstance(self.pieces, str):
+                # a hash string that happens to be valid utf-8 is decoded as text
+                self.pieces = self.pieces.encode("utf-8")
             path = self.paths[self.index]
             self.progbar = self.get_progress_tracker(self.length, path)
             self.count = 0
